@@ -243,3 +243,77 @@ Proof.
   unfold spec_replace. rewrite map_map. apply map_ext. intros [k0 c0]. cbn.
   destruct (Nat.eqb_spec c0 old); cbn; [now rewrite Nat.eqb_refl|reflexivity].
 Qed.
+
+(* ---------- histories of list edits: the refinement lifted to fold_left ---------- *)
+
+Inductive mop := MAdd (p c : nat) | MRemove (p c : nat) | MReplace (p old new : nat).
+
+Definition mstep (t : tables) (o : mop) : M unit :=
+  match o with
+  | MAdd p c => add t p c
+  | MRemove p c => remove_child p c
+  | MReplace p old new => replace_child t p old new
+  end.
+
+(* the abstract state: the children list of every element; names never change *)
+Definition astate := nat -> absl.
+Definition aupd (a : astate) (p : nat) (l : absl) : astate := fun q => if Nat.eqb q p then l else a q.
+Definition spec_mstep (nm : nat -> option str) (a : astate) (o : mop) : astate :=
+  match o with
+  | MAdd p c => aupd a p (spec_append (a p) (nm c) c)
+  | MRemove p c => aupd a p (spec_remove (a p) c)
+  | MReplace p old new => aupd a p (spec_replace (a p) old (nm new) new)
+  end.
+
+(* the side conditions under which the three methods are list edits *)
+Definition mside (s : store) (o : mop) : Prop :=
+  match o with
+  | MAdd p c => listing_add s p c = true
+  | MRemove p c => oid_eqb (n_tparent (getn s c)) p = false
+  | MReplace p old new => oid_eqb (n_tparent (getn s old)) p = false /\ NoDup (n_list (getn s p))
+  end.
+
+Inductive good_run (t : tables) : store -> list mop -> store -> Prop :=
+  | good_nil s : good_run t s [] s
+  | good_cons s o s1 k s' :
+      mstep t o s = (s1, Ok tt) -> mside s o -> good_run t s1 k s' -> good_run t s (o :: k) s'.
+
+Lemma mstep_refines t s o s1 :
+  mstep t o s = (s1, Ok tt) -> mside s o ->
+  (forall q, abs s1 q = spec_mstep (fun c => n_name (getn s c)) (abs s) o q) /\
+  (forall c, n_name (getn s1 c) = n_name (getn s c)).
+Proof.
+  destruct o as [p c|p c|p old new]; cbn [mstep mside spec_mstep]; intros H Hs.
+  - pose proof (add_ok t p c s s1 H) as E. rewrite Hs in E. split; [|apply E].
+    intros q. unfold aupd. destruct (Nat.eqb_spec q p) as [->|N]; [now apply abs_append|eapply abs_edit_other; eauto].
+  - pose proof (remove_child_ok p c s s1 H) as E. rewrite Hs in E. split; [|apply E].
+    intros q. unfold aupd. destruct (Nat.eqb_spec q p) as [->|N]; [now apply abs_remove|eapply abs_edit_other; eauto].
+  - destruct Hs as [Et D]. destruct (replace_child_ok t p old new s s1 H Et D) as [_ E]. split; [|apply E].
+    intros q. unfold aupd. destruct (Nat.eqb_spec q p) as [->|N]; [now apply abs_replace|eapply abs_edit_other; eauto].
+Qed.
+
+Lemma spec_mstep_ext nm a a' o : (forall q, a q = a' q) -> forall q, spec_mstep nm a o q = spec_mstep nm a' o q.
+Proof.
+  intros H q. destruct o; cbn [spec_mstep]; unfold aupd; destruct (Nat.eqb q p); auto; now rewrite H.
+Qed.
+Lemma fold_spec_ext nm ops : forall a a', (forall q, a q = a' q) ->
+  forall q, fold_left (spec_mstep nm) ops a q = fold_left (spec_mstep nm) ops a' q.
+Proof.
+  induction ops as [|o k IH]; intros a a' H q; cbn [fold_left]; auto.
+  apply IH. now apply spec_mstep_ext.
+Qed.
+
+Theorem refines_fold t s ops s' :
+  good_run t s ops s' ->
+  forall q, abs s' q = fold_left (spec_mstep (fun c => n_name (getn s c))) ops (abs s) q.
+Proof.
+  induction 1 as [s|s o s1 k s' H Hs _ IH]; intros q; cbn [fold_left]; auto.
+  destruct (mstep_refines t s o s1 H Hs) as [A N]. rewrite IH.
+  assert (En : forall a o' q', spec_mstep (fun c => n_name (getn s1 c)) a o' q' = spec_mstep (fun c => n_name (getn s c)) a o' q').
+  { intros a o' q'. destruct o'; cbn [spec_mstep]; now rewrite ?N. }
+  assert (Ef : forall ops' a q', fold_left (spec_mstep (fun c => n_name (getn s1 c))) ops' a q'
+                               = fold_left (spec_mstep (fun c => n_name (getn s c))) ops' a q').
+  { induction ops' as [|o' k' IHk]; intros a q'; cbn [fold_left]; auto.
+    rewrite IHk. apply fold_spec_ext. intros q2. apply En. }
+  rewrite Ef. apply fold_spec_ext. exact A.
+Qed.
